@@ -38,6 +38,15 @@ CHECKS = {
  'C09': ('event-trace monitor: wrappers on UnitEnvironment.__init__/close and DIP.parse record table digests; offline trace checker',
          'Histories of nested/repeated/failing unit scopes and DIP parses with $unit are executed; the digest of the process-wide unit, prefix and conversion-type tables at every scope end, failed construction, parse end and history end must equal the digest at the corresponding start; registered symbols must work inside and fail outside.',
          'Only input-driven failures are exercised (no asynchronous exceptions).', '5/C09'),
+ 'C10': ('reference-model oracle: formula trees are expanded by an independent multiset expander with per-species data computed from the isotope table',
+         'Every element, tabulated isotopes and generated formulas (nested groups with multipliers, multiplied group followed by a group, two capitals in a row, counts >= 10, isotope/charge suffixes, nucleons, optional blanks, explicit + and *) are parsed by the real Substance in both isotope modes; component counts, per-species Z/N/e/mass and the count-weighted totals must equal the model; Substance+Substance and Substance*k against multiset arithmetic.',
+         'Trusts vt/refmodel/materials_ref.py (re-computes the documented examples at worker start) and the raw PT_DATA table; rtol 1e-9.', '5/C10'),
+ 'C11': ('algebraic oracle over public outputs: normalisation, proportionality, scaling invariance and number<->mass duality',
+         'Mixtures of 1-8 substances (proportions over 6 decades, dict/string/Substance/Material forms, both normalisation and isotope modes, also results of +, k* and add()) must report x and X that sum to 100, are proportional to n_i and n_i*m_i, do not change under a common scaling, and agree between a number-fraction material and the same material given by its reported mass fractions.',
+         'Only relations between public outputs are used; rtol 1e-9.', '5/C11'),
+ 'C12': ('algebraic oracle over public outputs + unit-differential twin (same physical input in other units)',
+         'Elements, substances and materials with a mass or number density (and volume) must satisfy rho = n*M_unit, mass = rho*V, component sums and n_i = amount_i*n, and must report the same outputs when the inputs are given in other compatible units; known defects are recognised by buggy-twin models.',
+         'For Norm.MASS_FRACTION materials only the identities independent of the reading of "component amount" are verdicts; Da->g from the unit table; rtol 1e-9.', '5/C12'),
  'C13': ('reference-model oracle over generated DIP trees + metamorphic relation between two renderings of one tree',
          'Generated trees of groups and typed nodes (all literal forms, widths, arrays, blocks, tables, units, dotted names, typed parents, multi-level de-indentation) are rendered with random indentation widths, blank lines and comments; env.data(Format.TUPLE) incl. key order and Format.TYPE of the real parser must equal the model, and two renderings of one tree must give identical data; step budget on every parse.',
          'Trusts vt/refmodel/dip_ref_c13.py (checked against the documented examples at worker start).', '5/C13'),
